@@ -690,7 +690,7 @@ def expand_macros(text, macros, hits, depth=0, context=None):
                         call_args.append(a1)
                 call = '%s__fn(%s)' % (name, ', '.join(call_args))
                 if md.may_return:
-                    new = ('match %s { core::result::Result::Ok(_) => {}, core::result::Result::Err(e__) => { return PrinterLogMessageResult::Err(e__); } }' % call)
+                    new = ('match %s { core::result::Result::Ok(_) => {}, core::result::Result::Err(e__) => { return %s(e__); } }' % (call, getattr(md, 'errwrap', 'PrinterLogMessageResult::Err')))
                 else:
                     # expression position (e.g. a match arm `=> m!(..),`): the call itself, no statement terminator
                     new = call + (';' if (stmt_pos or e > c + 1) else '')
@@ -711,7 +711,7 @@ def expand_macros(text, macros, hits, depth=0, context=None):
             return text
 
 
-def macro_as_fn(md, macros, fn_params, may_return, generics, ret_ty):
+def macro_as_fn(md, macros, fn_params, may_return, generics, ret_ty, errwrap='PrinterLogMessageResult::Err'):
     """R13: text of the function generated from a macro body.  `$p` -> `(*p)` for by-reference parameters,
     `(p)` for by-value ones; `return PrinterLogMessageResult::Err(x)` -> `return Err(x)`; falls through to Ok(())."""
     hits = {}
@@ -747,7 +747,7 @@ def macro_as_fn(md, macros, fn_params, may_return, generics, ret_ty):
     body, h2 = apply_rules(body, macros={k: v for k, v in macros.items() if k != md.name}, context=sig_ctx)
     hits.update(h2)
     if may_return:
-        body = body.replace('PrinterLogMessageResult::Err(', 'core::result::Result::Err(')
+        body = body.replace(errwrap + '(', 'core::result::Result::Err(')
     params = ', '.join('%s: %s%s' % (pn, '&mut ' if kind == 'mut' else '&' if kind == 'ref' else '', ty) for pn, kind, ty in fn_params if kind != 'alias')
     g = '<%s>' % generics if generics else ''
     return g, params, body, hits
